@@ -133,6 +133,34 @@ pub fn suite_encode(out: &mut Out, tier: &str, rng: &mut Rng) {
         let m = control_of_size(total, rng);
         out.emit(json!({"op": "encode", "kind": "msg", "v": m, "prefix": [], "wr": "vec"}));
     }
+    // every kind (optional parts present, texts of some length) at writer positions around and beyond the
+    // 10-bit limit: what is appended must not depend on where the value lands
+    for ki in 0..KINDS.len() {
+        for np in [1000usize, 1015, 1023, 1024, 2000] {
+            if tier != "thorough" && (ki + np) % 2 == 1 {
+                continue;
+            }
+            let mut a = gen_avp_kind(rng, ki, 40);
+            if KINDS[ki].1 == "ResultCode" {
+                a = json!({"k": "ResultCode", "f": [rng.u16(), ["Generic"], [bytes_json(&gen_utf8(rng, 36))]]});
+            } else if KINDS[ki].1 == "Q931CauseCode" {
+                a = json!({"k": "Q931CauseCode", "f": [rng.u16(), rng.u8(), [bytes_json(&gen_utf8(rng, 30))]]});
+            }
+            let prefix = rng.bytes(np);
+            out.emit(json!({"op": "encode", "kind": "avp", "v": a, "prefix": bytes_json(&prefix), "wr": if ki % 2 == 0 { "vec" } else { "mon" }}));
+        }
+    }
+    // the same inside one message: a long first AVP pushes every later AVP beyond offset 1023
+    {
+        let mut avps = vec![gen_message_type(rng), host(1017, rng)];
+        for ki in 1..KINDS.len() {
+            avps.push(gen_avp_kind(rng, ki, 30));
+        }
+        avps.push(json!({"k": "ResultCode", "f": [2, ["Generic"], [bytes_json(&gen_utf8(rng, 36))]]}));
+        let m = json!({"k": "Control", "length": 0, "tunnel_id": 1, "session_id": 2, "ns": 3, "nr": 4, "avps": avps});
+        out.emit(json!({"op": "encode", "kind": "msg", "v": m, "prefix": [], "wr": "mon"}));
+        out.emit(json!({"op": "roundtrip", "kind": "msg", "v": m}));
+    }
     // writers that already hold about 64 KiB / 128 KiB: absolute positions pass 2^16 while the value is small
     let big_prefixes: &[usize] = if tier == "thorough" { &[65500, 65523, 65524, 65530, 65535, 65536, 70000, 131060, 131072] } else { &[65524, 65530, 70000] };
     for (i, &np) in big_prefixes.iter().enumerate() {
@@ -1018,23 +1046,52 @@ pub fn suite_reveal_plain(out: &mut Out, tier: &str, rng: &mut Rng) {
     }
 }
 
+/// a record whose length field is exact (so that it is one item when decoded alone), good or bad
+fn delimited_record(rng: &mut Rng) -> Vec<u8> {
+    loop {
+        let r = random_record(rng);
+        if r.len() >= 6 {
+            let len = (((r[0] >> 6) as usize) << 8) | r[1] as usize;
+            if len == r.len() {
+                return r;
+            }
+        }
+    }
+}
+
 /// C15: control messages assembled from independently generated good and bad records
 pub fn suite_ctl_records(out: &mut Out, tier: &str, rng: &mut Rng) {
     let n = counts(tier, 1500, 60000);
     for _ in 0..n {
-        let mut body = if rng.chance(5, 6) { enc_avp(&gen_message_type(rng)) } else { random_record(rng) };
-        for _ in 0..rng.range(0, 11) {
-            if rng.chance(2, 3) {
-                body.extend(enc_avp(&gen_avp(rng, 16)));
+        let mut recs: Vec<Vec<u8>> = Vec::new();
+        let k = rng.range(0, 12);
+        for i in 0..k {
+            if i == 0 && rng.chance(5, 6) {
+                recs.push(enc_avp(&gen_message_type(rng)));
+            } else if rng.chance(2, 3) {
+                recs.push(enc_avp(&gen_avp(rng, 16)));
             } else {
-                body.extend(random_record(rng));
+                recs.push(delimited_record(rng));
             }
         }
-        let b = enc_control_raw(flag_word(true, true, true, false, false, 2), None, [1, 2, 3, 4], &body);
-        out.emit(json!({"op": "decode", "in": bytes_json(&b), "opts": gen_opts(rng), "entry": "validate", "rdr": "slice"}));
+        match rng.below(8) {
+            0 => {
+                // a record with a length field below 6 somewhere: parsing stops there
+                let at = rng.below(recs.len() as u64 + 1) as usize;
+                recs.insert(at, enc_record(1, rng.below(6) as usize, 0, 7, &[]));
+            }
+            1 => {
+                // a last record whose length runs past the body
+                let p = rng.rbytes(0, 8);
+                recs.push(enc_record(1, 6 + p.len() + rng.range(1, 40) as usize, 0, 7, &p));
+            }
+            _ => {}
+        }
+        let body: Vec<u8> = recs.iter().flatten().copied().collect();
+        let b = enc_control_raw(flag_word(true, true, true, false, false, 2), None, [rng.u16(), rng.u16(), rng.u16(), rng.u16()], &body);
+        out.emit(json!({"op": "ctl_records", "in": bytes_json(&b), "recs": recs.iter().map(|r| bytes_json(r)).collect::<Vec<_>>()}));
     }
 }
-
 
 /// large inputs: sums of wire-supplied 16-bit quantities near 65 535 with the octets really present
 pub fn suite_decode_big(out: &mut Out, tier: &str, rng: &mut Rng) {
